@@ -49,6 +49,19 @@ func GenTree(t *rapid.T, cfg TreeCfg) *Tree {
 	if forkProb < 0 {
 		forkProb = 0 // never fork: a linear chain
 	}
+	// retarget families: half of the trees follow a pacing plan by height that makes the difficulty rise
+	// (four fast blocks), fall back to the limit through an interval of long gaps that ENDS on a normally
+	// timed block at the raised difficulty, and continue with normally timed blocks
+	var pacePlan []byte
+	if (fam == FamRetarget || fam == FamRetarget94) && rapid.Bool().Draw(t, "pacePlan") {
+		pacePlan = []byte("TTTTFFFFSSSTTTTT")
+		if n < 14 {
+			n = 14
+		}
+		if forkProb > 10 {
+			forkProb = 10
+		}
+	}
 	for i := 0; i < n; i++ {
 		var parent *Node
 		// leaves of the tree so far
@@ -75,7 +88,18 @@ func GenTree(t *rapid.T, cfg TreeCfg) *Tree {
 		case FamRetarget, FamRetarget94:
 			// fast blocks (difficulty rises, lower clamp), on-target blocks, minimum-difficulty
 			// blocks (more than 20 s after the parent) and long gaps (upper clamp)
-			switch rapid.IntRange(0, 5).Draw(t, "pace") {
+			pace := rapid.IntRange(0, 5).Draw(t, "pace")
+			if pacePlan != nil {
+				switch pacePlan[int(parent.Height+1)%len(pacePlan)] {
+				case 'F':
+					pace = 0
+				case 'T':
+					pace = 2
+				case 'S':
+					pace = 5
+				}
+			}
+			switch pace {
 			case 0, 1:
 				opt.TimeDelta = int64(rapid.IntRange(1, 3).Draw(t, "dt"))
 			case 2:
